@@ -129,6 +129,26 @@ def parseGEv (tok : String) : Option GEv :=
     | _, _ => none
   | _ => none
 
+def parseImpPolicy : String → Option ImpPolicy
+  | "codeOnly" => some .codeOnly
+  | "negative" => some .negative
+  | _ => none
+
+/-- `e:m:l` — evaluation `e` imports module `m`, its context live (`l = 1`) or ending during the load -/
+def parseIEv (tok : String) : Option IEv :=
+  match (tok.splitOn ":").mapM (·.toNat?) with
+  | some [e, m, l] => some ⟨e, m, l == 1⟩
+  | _ => none
+
+def parseFsEntry (t : String) : Option (Nat × Nat) :=
+  match (t.splitOn "=").mapM (·.toNat?) with
+  | some [m, k] => some (m, k)
+  | _ => none
+
+/-- `m=k;m=k`: the source tree (modules not listed are missing) -/
+def parseFs (s : String) : Option (Nat → Nat) :=
+  ((if s == "-" then [] else s.splitOn ";").mapM parseFsEntry).map fun tbl m => (ilook tbl m).getD 0
+
 /-- the cells evaluation `e` reads, in order of first read -/
 def cellsUsed (evs : List GEv) (e : Nat) : List (Nat × Nat) :=
   (evs.filterMap fun ev => match ev with
@@ -188,6 +208,12 @@ def handle : List String → String
         ++ "\t" ++ "|".intercalate ((List.range n).map fun e =>
           toString e ++ ":" ++ showCells (fun m a => attrSeenAlone p evs e m a) (cellsUsed evs e))
     | _, _, _ => "error\tbad-cfg-request"
+  | ["imps", pol, ne, fs, evs] =>
+    match parseImpPolicy pol, ne.toNat?, parseFs fs, (splitEvents evs).mapM parseIEv with
+    | some p, some n, some fs, some evs =>
+      "ok\t" ++ "|".intercalate ((List.range n).map fun e => toString e ++ ":" ++ showNats (importsSeen p fs evs e))
+        ++ "\t" ++ "|".intercalate ((List.range n).map fun e => toString e ++ ":" ++ showNats (importsSeenAlone p fs evs e))
+    | _, _, _, _ => "error\tbad-imps-request"
   | ["regrows"] =>
     ";".intercalate (registryRows.map fun r =>
       r.1 ++ "|" ++ r.2.1 ++ "|" ++ (if r.2.2.1 == "" then "-" else r.2.2.1) ++ "|" ++ r.2.2.2 ++ "|" ++ b2s (regRowOK r))
